@@ -64,6 +64,13 @@ fn pat(p: &Pat) -> R<String> {
         }
         Pat::Reference(r) => pat(&r.pat)?,
         Pat::Paren(r) => pat(&r.pat)?,
+        Pat::Tuple(t) => {
+            let mut a = vec![];
+            for e in &t.elems {
+                a.push(pat(e)?);
+            }
+            format!("({})", a.join(", "))
+        }
         other => return Err(format!("pattern outside subset: {}", other.to_token_stream())),
     })
 }
@@ -99,6 +106,10 @@ fn expr(e: &Expr) -> R<String> {
             format!("({} {})", expr(&c.func)?, a.join(" "))
         }
         Expr::MethodCall(m) if m.method == "token_type" && m.args.is_empty() => format!("(token_type {})", expr(&m.receiver)?),
+        // accessors mirrored as functions of FmAst.v; `.iter().next()` is the head of a list
+        Expr::MethodCall(m) if m.args.is_empty() && ["prefix", "variables", "lhs"].contains(&m.method.to_string().as_str()) => format!("({} {})", m.method, expr(&m.receiver)?),
+        Expr::MethodCall(m) if m.args.is_empty() && m.method == "iter" => expr(&m.receiver)?,
+        Expr::MethodCall(m) if m.args.is_empty() && m.method == "next" => format!("(hd_error {})", expr(&m.receiver)?),
         Expr::Macro(m) if m.mac.path.is_ident("matches") => {
             let ts = m.mac.tokens.to_string();
             let (scrut, pats) = ts.split_once(',').ok_or("matches! without pattern")?;
@@ -130,14 +141,28 @@ fn block(stmts: &[Stmt]) -> R<String> {
         Some((Stmt::Expr(e, None), [])) => expr(e),
         Some((Stmt::Expr(Expr::Return(r), _), _)) => expr(r.expr.as_ref().ok_or("return without value")?),
         Some((Stmt::Expr(Expr::If(i), _), rest)) => if_stmt(i, &block(rest)?),
+        Some((Stmt::Local(l), rest)) => local_stmt(l, &block(rest)?),
         Some((other, _)) => Err(format!("statement outside subset: {}", other.to_token_stream())),
     }
+}
+/// `let x = e;` with a plain identifier and no else branch
+fn local_stmt(l: &Local, k: &str) -> R<String> {
+    let name = match &l.pat {
+        Pat::Ident(i) if i.subpat.is_none() && i.by_ref.is_none() && i.mutability.is_none() => i.ident.to_string(),
+        other => return Err(format!("let pattern outside subset: {}", other.to_token_stream())),
+    };
+    let init = l.init.as_ref().ok_or("let without initialiser")?;
+    if init.diverge.is_some() {
+        return Err("let-else outside subset".into());
+    }
+    Ok(format!("(let {} := {} in {})", name, expr(&init.expr)?, k))
 }
 fn stmts_k(stmts: &[Stmt], k: &str) -> R<String> {
     match stmts.split_first() {
         None => Ok(k.to_string()),
         Some((Stmt::Expr(Expr::Return(r), _), _)) => expr(r.expr.as_ref().ok_or("return without value")?),
         Some((Stmt::Expr(Expr::If(i), _), rest)) => if_stmt(i, &stmts_k(rest, k)?),
+        Some((Stmt::Local(l), rest)) => local_stmt(l, &stmts_k(rest, k)?),
         Some((other, _)) => Err(format!("statement outside subset: {}", other.to_token_stream())),
     }
 }
@@ -175,18 +200,30 @@ fn arms(scrut: &str, arms_: &[Arm]) -> R<String> {
 
 struct Kernel {
     file: &'static str,
-    func: &'static str,
-    /// Gallina header: name, binders, struct argument, result type
-    header: &'static str,
+    /// name reported on the TRANSLATED / UNTRANSLATABLE line
+    name: &'static str,
+    /// (Rust function, Gallina header: name, binders, struct argument, result type), in dependency order
+    funcs: &'static [(&'static str, &'static str)],
     module: &'static str,
 }
 
-const KERNELS: &[Kernel] = &[Kernel {
-    file: "src/formatters/expression.rs",
-    func: "check_excess_parentheses",
-    header: "Fixpoint check_excess_parentheses (internal_expression : Expression) (context : ExpressionContext) {struct internal_expression} : bool :=",
-    module: "CheckExcess",
-}];
+const KERNELS: &[Kernel] = &[
+    Kernel {
+        file: "src/formatters/expression.rs",
+        name: "check_excess_parentheses",
+        funcs: &[("check_excess_parentheses", "Fixpoint check_excess_parentheses (internal_expression : Expression) (context : ExpressionContext) {struct internal_expression} : bool :=")],
+        module: "CheckExcess",
+    },
+    Kernel {
+        file: "src/formatters/block.rs",
+        name: "semicolon_rule",
+        funcs: &[
+            ("var_has_parentheses", "Definition var_has_parentheses (var : Var) : bool :="),
+            ("check_stmt_requires_semicolon", "Definition check_stmt_requires_semicolon (stmt : Stmt) (next_stmt : option (Stmt * option TokenReference)) : bool :="),
+        ],
+        module: "SemiRule",
+    },
+];
 
 fn find_fn<'a>(f: &'a File, name: &str) -> Option<&'a ItemFn> {
     f.items.iter().find_map(|it| match it {
@@ -421,12 +458,17 @@ fn main() {
         let result: R<String> = (|| {
             let src = std::fs::read_to_string(&path).map_err(|e| format!("{}: {}", path, e))?;
             let f = parse_file(&src).map_err(|e| format!("{}: {}", path, e))?;
-            let func = find_fn(&f, k.func).ok_or(format!("function {} not found in {}", k.func, k.file))?;
-            let body = block(&func.block.stmts)?;
-            Ok(format!(
-                "(* GENERATED by rs2v from {} :: {} -- do not edit; regenerated on every run *)\nFrom SV Require Import FmAst.\n{}\n  {}.\n",
-                k.file, k.func, k.header, body
-            ))
+            let mut text = format!(
+                "(* GENERATED by rs2v from {} :: {} -- do not edit; regenerated on every run *)\nFrom Coq Require Import List.\nFrom SV Require Import FmAst.\n",
+                k.file,
+                k.funcs.iter().map(|f| f.0).collect::<Vec<_>>().join(", ")
+            );
+            for (name, header) in k.funcs {
+                let func = find_fn(&f, name).ok_or(format!("function {} not found in {}", name, k.file))?;
+                let body = block(&func.block.stmts)?;
+                text += &format!("{}\n  {}.\n", header, body);
+            }
+            Ok(text)
         })();
         match result {
             Ok(text) => {
@@ -435,10 +477,10 @@ fn main() {
                 if std::fs::read_to_string(&out).ok().as_deref() != Some(text.as_str()) {
                     std::fs::write(&out, text).unwrap();
                 }
-                println!("TRANSLATED {} {}", k.func, out);
+                println!("TRANSLATED {} {}", k.name, out);
             }
             Err(e) => {
-                println!("UNTRANSLATABLE {} {}", k.func, e.replace('\n', " "));
+                println!("UNTRANSLATABLE {} {}", k.name, e.replace('\n', " "));
                 failed = true;
             }
         }
